@@ -164,7 +164,37 @@ func classifyReturn(ret *ssa.Return) RetKind {
 	if idx >= len(ret.Results) {
 		return RetUnknown
 	}
-	return errValueKind(ret.Results[idx], ret.Block(), 0)
+	return errValueKind(retResult(ret, idx), ret.Block(), 0)
+}
+
+// retResult returns the idx-th returned value, looking through the spill go/ssa inserts in functions
+// with defers (`*t1 = v; rundefers; t2 = *t1; return t2`).
+func retResult(ret *ssa.Return, idx int) ssa.Value {
+	return unspill(ret.Results[idx], ret)
+}
+
+func unspill(v ssa.Value, before ssa.Instruction) ssa.Value {
+	ld, ok := v.(*ssa.UnOp)
+	if !ok || ld.Op != token.MUL {
+		return v
+	}
+	al, ok := ld.X.(*ssa.Alloc)
+	if !ok {
+		return v
+	}
+	b := ld.Block()
+	pos := -1
+	for i, ins := range b.Instrs {
+		if ins == ssa.Instruction(ld) {
+			pos = i
+		}
+	}
+	for i := pos - 1; i >= 0; i-- {
+		if st, ok := b.Instrs[i].(*ssa.Store); ok && st.Addr == ssa.Value(al) {
+			return st.Val
+		}
+	}
+	return v
 }
 
 // errSourceCall: if v (an error value) is the error result of a call, return that call.
@@ -342,7 +372,7 @@ func (r *flowRule) run(fn *ssa.Function, init uint64, depth int) *flowResult {
 				rm := m
 				k := classifyReturn(t)
 				if pend != nil {
-					if idx := errResultIndex(fn.Signature); idx >= 0 && idx < len(t.Results) && errSourceCall(t.Results[idx]) == pend.call {
+					if idx := errResultIndex(fn.Signature); idx >= 0 && idx < len(t.Results) && errSourceCall(retResult(t, idx)) == pend.call {
 						// tail call: success returns carry the callee's success states only
 						res.RetKind[t] = RetUnknown
 						res.Returns[t] |= rm
